@@ -16,6 +16,7 @@ from .. import core, harness, vclock, vloop
 from . import c13
 
 PROP = 'C07'
+TECHNIQUE = ('runtime monitoring: block outputs sampled around every boundary on a virtual wall clock (clock-read cost, wake-up latency, clock jumps) and compared with an integer calendar predicate; real Cron task')
 LEVEL = 'exploration'
 RULE = ("case = (1..5 TimeDate/TimeSpan blocks, local (UTC+2h) and UTC schedulers mixed; times / "
         "dates / weekdays / spans generated as integers (wrapping and non-wrapping ranges, equal "
